@@ -331,6 +331,9 @@ package dials
 //@        (exists v *versionedConfig :: hist[&d.value][v] && cfg == v.cfg && tok.s == v.serial && tok.cfg == v.cfg)
 //@   ensures C09_nowatch_verify_result: d.params.DelayInitialVerification && d.monCtl == nil && vlogLen == old(vlogLen) + 1 ==> err == vlogErr[old(vlogLen)]
 //@   ensures C09_failure_returns_nothing: err != nil ==> cfg == nil
+//@   ensures C09_delayed_verification_is_carried_out_without_watchers: d.params.DelayInitialVerification && d.monCtl == nil && err == nil && cfg != nil
+//@        && impl(box(cfg, "*T"), "dials.VerifiedConfig") ==> vlogLen == old(vlogLen) + 1
+//@   ensures C09_delayed_verification_is_requested_from_the_monitor: d.params.DelayInitialVerification && d.monCtl != nil && err == nil ==> sent[d.monCtl] == old(sent)[d.monCtl] + 1
 
 // ---------------------------------------------------------------------------------------------
 // the monitor goroutine
